@@ -179,6 +179,7 @@ class Stats:
         self.per_test = collections.defaultdict(collections.Counter)
         self.raised_examples = {}
         self.prims = collections.Counter()
+        self.lines = set()
 
     def merge(self, o):
         self.status.update(o.status)
@@ -194,6 +195,7 @@ class Stats:
         for k, v in o.raised_examples.items():
             self.raised_examples.setdefault(k, v)
         self.prims.update(o.prims)
+        self.lines |= o.lines
 
 
 def _record(stats, test, out, case):
@@ -312,6 +314,54 @@ def _jsonable(o):
 
 
 _RECORDED = collections.Counter()
+_LINES = set()
+_REACH_INSTALLED = [False]
+
+
+def resolve_reach_functions(names):
+    """'autograd.core:add_outgrads' -> function object (attribute paths allowed after the colon)."""
+    import importlib
+
+    out = []
+    for n in names:
+        mod, attr = n.split(":")
+        obj = importlib.import_module(mod)
+        for part in attr.split("."):
+            obj = getattr(obj, part)
+        obj = getattr(obj, "fun", obj)  # autograd primitives keep the raw function in .fun
+        out.append((n, obj))
+    return out
+
+
+def install_line_reach(names):
+    """Evidence only: record which source lines of the anchored mechanism functions execute (sys.monitoring LINE events on those
+    code objects only; every line is disabled after its first hit, so the cost is negligible)."""
+    if _REACH_INSTALLED[0] or not hasattr(sys, "monitoring"):
+        return
+    _REACH_INSTALLED[0] = True
+    mon = sys.monitoring
+    tool = 4
+    try:
+        mon.use_tool_id(tool, "vh-reach")
+    except ValueError:
+        return
+    codes = {}
+    for n, fn in resolve_reach_functions(names):
+        code = getattr(fn, "__code__", None)
+        if code is not None:
+            codes[code] = n
+            # nested closures (e.g. the mut_add closure inside untake) are separate code objects
+            for const in code.co_consts:
+                if hasattr(const, "co_code"):
+                    codes[const] = n + "/" + const.co_name
+
+    def on_line(code, lineno):
+        _LINES.add((codes.get(code, code.co_name), lineno))
+        return mon.DISABLE
+
+    mon.register_callback(tool, mon.events.LINE, on_line)
+    for code in codes:
+        mon.set_local_events(tool, code, mon.events.LINE)
 
 
 def install_primitive_recorder():
@@ -338,6 +388,8 @@ def _worker(task):
     if c.get("record_primitives"):
         install_primitive_recorder()
         _RECORDED.clear()
+    if c.get("reach"):
+        install_line_reach(c["reach"])
     test = c["tests"][tidx]
     t0 = time.time()
     try:
@@ -346,6 +398,8 @@ def _worker(task):
         return tidx, shard, None, [], traceback.format_exc(), time.time() - t0
     if c.get("record_primitives"):
         stats.prims.update(_RECORDED)
+    if c.get("reach"):
+        stats.lines |= _LINES
     return tidx, shard, stats, failures, harness, time.time() - t0
 
 
@@ -427,7 +481,8 @@ def run_property(prop, tier, seed, only=None):
             tasks.append((i, s, per))
     # biggest first for better packing
     tasks.sort(key=lambda t: -t[2])
-    _CTX.update(tests=tests, tier=tier, seed=seed, known=known_all, record_primitives=getattr(prop, "record_primitives", False))
+    _CTX.update(tests=tests, tier=tier, seed=seed, known=known_all, record_primitives=getattr(prop, "record_primitives", False),
+                reach=getattr(prop, "reach_functions", None))
     found = {}
     slow = []
     if tasks:
@@ -516,6 +571,11 @@ def run_property(prop, tier, seed, only=None):
             mostly_raised.append(name)  # autograd raises for most configurations (allowed outcome; reported)
     coverage["weak_generators"] = sorted(weak)
     coverage["mostly_raised"] = sorted(mostly_raised)
+    if getattr(prop, "reach_functions", None):
+        try:
+            coverage["line_reach"] = line_reach_report(prop.reach_functions, agg.lines)
+        except Exception:
+            coverage["line_reach"] = {"error": traceback.format_exc()[-300:]}
     if prop.finalize:
         try:
             coverage.update(prop.finalize(agg))
@@ -540,6 +600,26 @@ def run_property(prop, tier, seed, only=None):
     if harness_errors:
         return 2
     return 0
+
+
+def line_reach_report(names, lines):
+    """Per anchored function: executable lines (from the code object) vs lines seen executing in this run."""
+    import dis
+
+    rep = {}
+    hit = {}
+    for name, ln in lines:
+        hit.setdefault(name, set()).add(ln)
+    for n, fn in resolve_reach_functions(names):
+        code = getattr(fn, "__code__", None)
+        if code is None:
+            continue
+        todo = [(n, code)] + [(n + "/" + c.co_name, c) for c in code.co_consts if hasattr(c, "co_code")]
+        for label, co in todo:
+            execl = sorted({l for _, l in dis.findlinestarts(co) if l is not None and l != co.co_firstlineno})
+            got = sorted(hit.get(label, set()) & set(execl))
+            rep[label] = {"executable_lines": len(execl), "reached": len(got), "not_reached": [l for l in execl if l not in got]}
+    return rep
 
 
 def _pick_samples(samples, n=12):
